@@ -28,6 +28,10 @@ const (
 	kfFracOver64    = "fixedn-tostring-fraction-over-64b" // ToString prints a wrong fraction when it needs more than 64 bits (precision >= 20)
 	kfSigMalleable  = "signature-malleability-high-s"     // (r, N-s) verifies whenever (r, s) does: no low-S rule
 	kfAddressLength = "address-decode-length"             // StringToUint160 panics on / accepts Base58Check payloads whose length is not 21
+	// the scalar 0 is accepted as a private key (an existing test requires it)
+	kfZeroScalar = "private-key-zero-scalar-accepted"
+	// CreateMultiSigRedeemScript limits m, not the number of keys (an existing test builds its input that way)
+	kfMultisigKeyLimit = "multisig-builder-limits-m-not-key-count"
 )
 
 func init() {
